@@ -13,7 +13,11 @@ Used by tools/sections/19_options.py (→ `Replicat.Gen`) and by harness/props/c
 at the parsers that the current working tree of replicat really builds.
 """
 import json
+import os
 import sys
+
+sys.path.insert(0, os.path.dirname(os.path.abspath(__file__)))
+from c19_child import tv  # noqa: E402
 
 
 def tyname(f):
@@ -51,6 +55,7 @@ def main():
             'dest': a.dest, 'flags': list(a.option_strings), 'cls': type(a).__name__,
             'type': tyname(a.type), 'default_kind': default_kind(a.default),
             'default_repr': repr(a.default), 'default_type': type(a.default).__name__,
+            'default_tv': None if a.default is argparse.SUPPRESS else tv(a.default),
             'nargs': a.nargs, 'const_repr': repr(a.const), 'group': g, 'required': bool(a.required),
         }
 
@@ -58,9 +63,11 @@ def main():
     ip, cp = cli.initial_parser, cli.common_options_parser
     out['initial'] = [dump_action(a, ip._mutually_exclusive_groups) for a in ip._actions]
     out['common'] = [dump_action(a, cp._mutually_exclusive_groups) for a in cp._actions]
+    out['default_config_path'] = str(config.DEFAULT_CONFIG_PATH)
+    out['cwd'] = os.getcwd()
     out['config_fields'] = [
         {'name': f.name, 'default_kind': default_kind(f.default), 'default_repr': repr(f.default),
-         'default_type': type(f.default).__name__}
+         'default_type': type(f.default).__name__, 'default_tv': tv(f.default)}
         for f in dataclasses.fields(config.Config)]
 
     backends = {}
@@ -88,6 +95,7 @@ def main():
                 'default_kind': 'missing' if d is missing else default_kind(d),
                 'default_repr': None if d is missing else repr(d),
                 'default_type': None if d is missing else type(d).__name__,
+                'default_tv': tv(d, missing),
                 'actions': [dump_action(a, bp._mutually_exclusive_groups) for a in acts],
             })
         backends[b] = {'short_name': bt.short_name, 'module': bt.__module__, 'kwonly': kwonly, 'fields': fields,
